@@ -76,7 +76,7 @@ func init() {
 			*l = append(*l, &Job{Pkg: "codec/format", Func: "ZZ_C16_Text", Args: []int64{p, 1}, Bounds: b})
 		}
 		quick = append(quick, &Job{Pkg: "codec/format", Func: "ZZ_C16_Text", Args: []int64{7, 0}, Bounds: b})
-		for u := int64(0); u <= 3; u++ {
+		for u := int64(0); u <= 4; u++ {
 			quick = append(quick, &Job{Pkg: "codec/format", Func: "ZZ_C16_TextRetained", Args: []int64{u}, Bounds: "two strings of 1..3 symbolic bytes through one codec chain (packet / length-field / delimiter / varint codec underneath); both strings compared after the second delivery"})
 		}
 		for _, c := range [][]int64{{0, 0}, {1, 0}, {0, 1}, {1, 1}} {
@@ -134,6 +134,8 @@ func init() {
 			thorough = append(thorough, &Job{Pkg: "", Func: "ZZ_C03_Pipeline", Args: []int64{2, kind, 0, 1}, Bounds: b})
 		}
 		quick = append(quick, &Job{Pkg: "", Func: "ZZ_C03_Pipeline", Args: []int64{2, 1, 0, 1}, Bounds: b})
+		quick = append(quick, &Job{Pkg: "", Func: "ZZ_C03_Pipeline", Args: []int64{2, 5, 3, 0}, Bounds: b + "; entry 3: Channel.Trigger after the channel was closed"})
+		quick = append(quick, &Job{Pkg: "", Func: "ZZ_C03_Pipeline", Args: []int64{2, 2, 4, 0}, Bounds: b + "; entry 4: ctx.Write whose transport write is refused - the exception travels from the head"})
 		for _, kind := range []int64{2, 5} {
 			quick = append(quick, &Job{Pkg: "", Func: "ZZ_C03_Pipeline", Args: []int64{2, kind, 1, 0}, Bounds: b})
 			quick = append(quick, &Job{Pkg: "", Func: "ZZ_C03_Pipeline", Args: []int64{2, kind, 2, 0}, Bounds: b})
@@ -143,7 +145,7 @@ func init() {
 		thorough = append(thorough, &Job{Pkg: "", Func: "ZZ_C03_Pipeline", Args: []int64{3, 3, 0, 0}, Bounds: b, Limit: 3600e9})
 		Specs["C03"] = &Spec{
 			Jobs:      jobsBy(quick, thorough),
-			MustReach: []string{"c03-done", "c03-illegal-position", "c03-write-reaches-transport", "c03-exception-closes"},
+			MustReach: []string{"c03-done", "c03-trigger-after-close", "c03-ctx-write-fault", "c03-illegal-position", "c03-write-reaches-transport", "c03-exception-closes"},
 			Bounds: map[string]string{
 				"quick":    "all programs of 2 building operations (single-handler calls), 8 handler variants per handler, every insert position incl. illegal ones; all six event kinds through pipeline.Fire*, write/user-event also through Channel.Write/Trigger and ctx.Write/Trigger from every user position",
 				"thorough": "plus two-handler calls with a repeated instance, and programs of 3 operations for read/exception/write/event",
